@@ -26,6 +26,7 @@ package kms
 
 // a regional client: one SDK request per call, to its own master key
 //@ func (*regionalClient).DecryptKey
+//@   names r, ctx, keyBytes
 //@   facet C17
 //@   safety C17
 //@   requires r != nil && r.Client != nil
@@ -34,6 +35,7 @@ package kms
 //@   ensures err == nil ==> resp != nil
 //@   ensures [C17:regional-decrypt-sends-the-given-blob] ncalls(Decrypt) == 1 && arg(Decrypt, 1, params).CiphertextBlob == keyBytes
 //@ func (*regionalClient).GenerateDataKey
+//@   names r, ctx
 //@   facet C17
 //@   safety C17
 //@   opt no-frame
@@ -42,6 +44,7 @@ package kms
 //@   ensures err == nil ==> resp != nil && resp.KeyId != nil
 //@   ensures [C17:regional-generate-asks-for-an-aes256-key-under-its-master-key] ncalls(GenerateDataKey) == 1 && resp == ret(GenerateDataKey, 1, 0)
 //@ func (*regionalClient).EncryptKey
+//@   names r, ctx, keyBytes
 //@   facet C17
 //@   safety C17
 //@   requires r != nil && r.Client != nil
@@ -52,6 +55,7 @@ package kms
 
 //@ spec fn clientsStable(a *AWSKMS) bool = distinctClients2(a) && a.clients == old(a.clients) && (forall j int :: 0 <= j && j < len(a.clients) ==> a.clients[j].Client == old(a.clients[j].Client) && a.clients[j].Region == old(a.clients[j].Region) && a.clients[j].MasterKeyARN == old(a.clients[j].MasterKeyARN))
 //@ func (*AWSKMS).generateDataKey
+//@   names a, ctx
 //@   facet C17
 //@   safety C17
 //@   modifies cgen
@@ -63,13 +67,14 @@ package kms
 //@   ensures [C17:no-region-is-skipped-on-the-way] forall x int, y int :: 0 <= x && x < y && y < len(a.clients) && cgen(a.clients[y].Client) != old(cgen(a.clients[y].Client)) ==> cgen(a.clients[x].Client) == old(cgen(a.clients[x].Client)) + 1
 
 //@ func (*AWSKMS).DecryptKey
+//@   names a, ctx, data
 //@   facet C17, C10
 //@   ensures [C10:kms-data-key-plaintext-wiped] retis(DecryptKey, 1, 1, nil) ==> (forall i int :: 0 <= i && i < len(ret(DecryptKey, 1, 0).Plaintext) ==> ret(DecryptKey, 1, 0).Plaintext[i] == 0)
 //@   safety C17
 //@   opt no-frame
 //@   requires a != nil && a.crypto != nil && distinctClients2(a)
-//@   loop 1 invariant [C17:entries-indexed-by-region] 0 <= iter && iter <= len(kekEn.KEKs) && keks != nil && (forall r string :: r in keks ==> (exists j int :: 0 <= j && j < iter && kekEn.KEKs[j].Region == r)) && (forall j int :: 0 <= j && j < iter ==> kekEn.KEKs[j].Region in keks)
-//@   loop 2 invariant [C17:regions-tried-in-client-order] clientsStable(a) && keks != nil && (forall x int :: 0 <= x && x < len(kekEn.KEKs) ==> kekEn.KEKs[x].Region in keks) && 0 <= iter && iter <= len(a.clients) && (forall j int :: 0 <= j && j < iter && a.clients[j].Region in keks ==> ctried(a.clients[j].Client) == old(ctried(a.clients[j].Client)) + 1) && (forall j int :: iter <= j && j < len(a.clients) ==> ctried(a.clients[j].Client) == old(ctried(a.clients[j].Client)))
+//@   loop 1 invariant [C17:entries-indexed-by-region] 0 <= iter && iter <= len(dyn(arg(Unmarshal, 1, v), *envelope).KEKs) && keks != nil && (forall r string :: r in keks ==> (exists j int :: 0 <= j && j < iter && dyn(arg(Unmarshal, 1, v), *envelope).KEKs[j].Region == r)) && (forall j int :: 0 <= j && j < iter ==> dyn(arg(Unmarshal, 1, v), *envelope).KEKs[j].Region in keks)
+//@   loop 2 invariant [C17:regions-tried-in-client-order] clientsStable(a) && keks != nil && (forall x int :: 0 <= x && x < len(dyn(arg(Unmarshal, 1, v), *envelope).KEKs) ==> dyn(arg(Unmarshal, 1, v), *envelope).KEKs[x].Region in keks) && 0 <= iter && iter <= len(a.clients) && (forall j int :: 0 <= j && j < iter && a.clients[j].Region in keks ==> ctried(a.clients[j].Client) == old(ctried(a.clients[j].Client)) + 1) && (forall j int :: iter <= j && j < len(a.clients) ==> ctried(a.clients[j].Client) == old(ctried(a.clients[j].Client)))
 //@   ensures (err == nil) || result == nil
 //@   ensures [C17:unwrap-returns-what-the-working-region-decrypted] err == nil ==> result == ret(Decrypt, 1, 0)
 //@   ensures [C17:unwrap-fails-only-after-every-region-with-an-entry-was-tried] err != nil && retis(Unmarshal, 1, 0, nil) ==> (forall j int, x int :: 0 <= j && j < len(a.clients) && 0 <= x && x < len(dyn(arg(Unmarshal, 1, v), *envelope).KEKs) && dyn(arg(Unmarshal, 1, v), *envelope).KEKs[x].Region == a.clients[j].Region ==> ctried(a.clients[j].Client) == old(ctried(a.clients[j].Client)) + 1)
@@ -87,6 +92,7 @@ package kms
 //@   ensures [C17:no-entry-for-a-failed-region] !retis(EncryptKey, 1, 1, nil) ==> chsent(ch) == old(chsent(ch))
 
 //@ func (*AWSKMS).encryptAllRegions
+//@   names a, ctx, dataKey, ch
 //@   facet C17
 //@   safety C17
 //@   opt no-frame
@@ -96,6 +102,7 @@ package kms
 //@   ensures [C17:channel-closed-once-every-region-is-done] chclosed(ch)
 
 //@ func (*AWSKMS).EncryptKey
+//@   names a, ctx, keyBytes
 //@   facet C17, C10
 //@   safety C17
 //@   opt no-frame
